@@ -699,16 +699,20 @@ func JudgeC04(c *Case, res *Result) []Finding {
 		}
 		grapheme := c.Policy == 2 || (c.Policy == 0 && (countdown || li.trunc != nil))
 		limit := li.maxWidth
-		if li.trunc != nil {
-			limit = li.maxWidth - tadv.Floor() // lenient rounding of "reduced by the truncator's advance"
-		}
-		// (1) width bound, measured on the output line itself
+		// (1) width bound, measured on the output line itself, in exact 26.6 arithmetic:
+		// the line (plus the truncator's advance on the truncated line: "filled against
+		// the width reduced by the truncator's advance") must not exceed maxWidth
 		lo, _, _ := x.measure(s, e)
 		outW := outputWidth(c, li)
 		if outW < lo {
 			lo = outW
 		}
-		if lo.Ceil() > limit {
+		need := lo
+		if li.trunc != nil {
+			need += tadv
+			limit = li.maxWidth - tadv.Ceil() // for the message only
+		}
+		if need > fixed.I(li.maxWidth) {
 			// exemption: single unbreakable unit
 			first := x.nextPermitted(s, grapheme || c.Policy == 0)
 			if e > first {
